@@ -27,7 +27,7 @@ Section BlobProofs.
       cbn [length] in Hl. injection Hl as Hl. destruct (IH ins Hl Hc) as [[l fl] Hr].
       cbn [post_inputs]. rewrite Hr.
       assert (exists r, post_input t i = Some r) as [[i' f] Hp].
-      { unfold post_input, input_consistent in *. destruct (i_nwu i) as [ptx|]; [|eexists; reflexivity].
+      { unfold post_input, input_consistent in *. destruct (i_nwu i) as [ptx|]; [|rewrite Hi; eexists; reflexivity].
         apply andb_true_iff in Hi. destruct Hi as [Hid Ho]. rewrite Hid. cbn [negb].
         destruct (nth_N (pt_outs ptx) (ti_vout t)) as [o|]; [|discriminate].
         destruct (i_wu i) as [w|]; [rewrite Ho|]; eexists; reflexivity. }
@@ -99,7 +99,8 @@ Proof.
       unfold txout_eqb in Eq. apply andb_true_iff in Eq. destruct Eq as [Ev Es].
       apply N.eqb_eq in Ev. apply bytes_eqb_eq in Es. destruct w, o. cbn in *. subst. reflexivity.
     + intros H. injection H as <- <-. cbn [i_nwu i_wu]. repeat split.
-  - intros H. injection H as <- <-. rewrite En. repeat split.
+  - destruct (bare_claim_ok i); [|discriminate].
+    intros H. injection H as <- <-. rewrite En. repeat split.
 Qed.
 
 Lemma post_inputs_spec ts : forall ins l fl,
@@ -146,10 +147,30 @@ Proof.
     destruct (post_inputs ts ins) as [[l' fl']|] eqn:Er; [|discriminate].
     destruct (IH _ _ Er) as [Hl Hc]. split; [cbn [length]; lia|].
     cbn [map2 forallb]. rewrite Hc, andb_true_r.
-    unfold post_input in Ep. unfold input_consistent. destruct (i_nwu i) as [ptx|]; [|reflexivity].
+    unfold post_input in Ep. unfold input_consistent. destruct (i_nwu i) as [ptx|];
+      [|destruct (bare_claim_ok i); [reflexivity|discriminate]].
     destruct (bytes_eqb (pt_txid ptx) (ti_txid t)); [|discriminate]. cbn [negb andb] in *.
     destruct (nth_N (pt_outs ptx) (ti_vout t)) as [o|]; [|discriminate].
     destruct (i_wu i) as [w|]; [|reflexivity]. destruct (txout_eqb w o); [reflexivity|discriminate].
+Qed.
+
+(** every bare claim the decoder lets through is about a witness-program or p2sh output *)
+Lemma consistent_bare_ok ts : forall ins,
+  forallb (fun b => b) (map2 input_consistent ts ins) = true -> length ts = length ins ->
+  forallb bare_claim_ok ins = true.
+Proof.
+  induction ts as [|t ts IH]; intros [|i ins] Hc Hl; try discriminate; [reflexivity|].
+  cbn [map2 forallb] in *. apply andb_true_iff in Hc. destruct Hc as [Hi Hc].
+  rewrite (IH ins Hc) by (cbn [length] in Hl; lia). rewrite andb_true_r.
+  unfold input_consistent in Hi. unfold bare_claim_ok in *. destruct (i_nwu i); [reflexivity|exact Hi].
+Qed.
+
+Theorem streamed_post_bare_claims p r :
+  streamed_post p = Some r -> forallb bare_claim_ok (p_inputs p) = true.
+Proof.
+  unfold streamed_post. destruct (negb (unsigned_tx_ok p)); [discriminate|].
+  destruct (post_inputs (p_txins p) (p_inputs p)) as [r'|] eqn:E; [|discriminate]. intros _.
+  destruct (post_inputs_complete _ _ _ E) as [Hl Hc]. apply (consistent_bare_ok _ _ Hc Hl).
 Qed.
 
 Theorem streamed_post_accepts_iff p :
